@@ -209,6 +209,21 @@ func (r *replayer) violate(kind, what string, detail map[string]any) {
 	r.res.Violate(fmt.Sprintf("%s/%s/%s/%s", r.cfg.Prop, r.s.Name, r.mutKey, kind), what, detail)
 }
 
+// honestError: an HONEST library call on inputs inside the property's quantifier returned an error - a completeness
+// violation with a stable key (never a driver failure); the rest of the behaviour is not replayed
+func (r *replayer) honestError(call string, err error) {
+	key := r.mutKey
+	if r.rel != "" && r.rel != "indep" {
+		key += "@" + r.rel
+	}
+	d := map[string]any{"call": call, "err": err.Error()}
+	save := r.mutKey
+	r.mutKey = key
+	r.violate(call+"/honest-error", call+" fails on honest input", d)
+	r.mutKey = save
+	r.dead = true
+}
+
 func cpShare(s *pvss.PubVerShare) *pvss.PubVerShare {
 	return &pvss.PubVerShare{
 		S: share.PubShare{I: s.S.I, V: s.S.V.Clone()},
@@ -423,7 +438,7 @@ func (r *replayer) deal() error {
 	r.secret = s.Scalar().Pick(s.RandomStream())
 	enc, pol, err := pvss.EncShares(s, r.H, r.X, r.secret, uint32(r.t))
 	if err != nil {
-		r.violate("encshares-error", "EncShares failed on honest input", map[string]any{"err": err.Error()})
+		r.honestError("EncShares", err)
 		return nil
 	}
 	_, r.commits = pol.Info()
@@ -528,6 +543,32 @@ func (r *replayer) tamperDec(m Mut) {
 		r.alterShareField(r.dec[p], m.K)
 	case "I":
 		r.dec[p].S.I = uint32(q)
+	case "tforge":
+		// malicious trustee p: wrong decrypted value with a proof built backwards from an arbitrary VH
+		s := r.s
+		d := r.dec[p]
+		honest := d.S.V
+		v := s.NonZeroScalar()
+		W := s.Point().Mul(s.NonZeroScalar(), nil)
+		d.P.VG = s.Point().Mul(v, r.G)
+		d.P.VH = W
+		h := s.Hash()
+		for _, pt := range []kyber.Point{r.X[p], r.enc[p].S.V, d.P.VG, d.P.VH} {
+			if _, err := pt.MarshalTo(h); err != nil {
+				r.herr = err
+				return
+			}
+		}
+		d.P.C = s.Scalar().Pick(s.XOF(h.Sum(nil)))
+		d.P.R = s.Scalar().Sub(v, s.Scalar().Mul(d.P.C, r.x[p]))
+		if d.P.R.Equal(s.Scalar().Zero()) {
+			r.unwitnessed = true
+			return
+		}
+		d.S.V = s.Point().Mul(s.Scalar().Inv(d.P.R), s.Point().Sub(W, s.Point().Mul(d.P.C, r.enc[p].S.V)))
+		if d.S.V.Equal(honest) {
+			r.unwitnessed = true
+		}
 	case "forge":
 		s := r.s
 		d := r.dec[p]
@@ -770,7 +811,8 @@ func (r *replayer) dealBatch() error {
 		}
 		enc, pol, err := pvss.EncShares(s, r.H, keys, s.Scalar().Pick(s.RandomStream()), uint32(1+d%2))
 		if err != nil {
-			return err
+			r.honestError("EncShares", err)
+			return nil
 		}
 		r.pkgs[d], r.pols[d] = enc, pol
 		r.enc[d] = enc[r.pos[d]]
@@ -876,14 +918,16 @@ func (r *replayer) dealDleq() error {
 	if n == 1 {
 		p, xG, xH, err := dleq.NewDLEQProof(s, G[0], H[0], x[0])
 		if err != nil {
-			return err
+			r.honestError("NewDLEQProof", err)
+			return nil
 		}
 		r.st[0] = &stmt{G[0], H[0], xG, xH, p}
 		return nil
 	}
 	ps, xG, xH, err := dleq.NewDLEQProofBatch(s, G, H, x)
 	if err != nil {
-		return err
+		r.honestError("NewDLEQProofBatch", err)
+		return nil
 	}
 	for i := range ps {
 		r.st[i] = &stmt{G[i], H[i], xG[i], xH[i], &dleq.Proof{C: ps[i].C.Clone(), R: ps[i].R, VG: ps[i].VG, VH: ps[i].VH}}
